@@ -28,9 +28,40 @@ _des = None
 KINDS = {8: (1, False), 16: (2, False), 24: (3, False), 128: (1, True), 256: (2, True), 384: (3, True)}
 
 
+_real_des = None
+
+
 def prepare(tier, seed):
-    global _des
+    global _des, _real_des
     _des, = loader.load(['scared.des.base'])
+    try:
+        _real_des, = loader.load_real(['scared.des.base'])
+    except Exception:       # noqa: B902
+        _real_des = None
+
+
+def validate_translation(res, mode, st, ky, out, kwargs, expanded):
+    """Translator validation: the symbolic result evaluated on seeded inputs must equal what the real function returns under real numpy."""
+    import random
+    if _real_des is None:
+        return
+    from harness.common import EvalModel
+    r = random.Random(st.size * 31 + ky.size)
+    pairs, conc = [], {}
+    for arr, nm, lim in ((st, 's', 256), (ky, 'k', 64 if expanded else 256)):
+        vals = []
+        for t in S.terms(arr):
+            v = r.randrange(lim)
+            vals.append(v)
+            pairs.append((t, z3.BitVecVal(v, t.size())))
+        conc[nm] = rnp.array(vals, dtype=arr.dtype).reshape(arr.shape)
+    m = EvalModel(pairs)
+    got = [m.eval(t).as_long() if E.is_sym(t) else int(t) for t in S.terms(out)]
+    real = getattr(_real_des, mode)(conc['s'], conc['k'], **kwargs)
+    if got == [int(v) for v in rnp.asarray(real).reshape(-1)]:
+        res['validated'] += 1
+    else:
+        res['unknown'].append(f'translator validation failed for des.{mode}{kwargs}: symbolic model {got} vs real code {rnp.asarray(real).reshape(-1).tolist()}')
 
 
 def jobs(tier, seed):
@@ -221,11 +252,14 @@ def job_flow(job, res):
             history.append([d, r, s])
             if d is None:
                 out = fn(st, ky)
+                validate_translation(res, mode, st, ky, out, {}, expanded)
                 exp = sum((tr[-1]['out'] for tr in traces), [])
                 pos = list(range(8))
                 desc = f'des.{mode}(state{sshape}, key{kshape}) == FIPS 46-3 {"TDES " if npass == 3 else ""}{mode}ion output'
             else:
                 out = fn(st, ky, at_des=d, at_round=r, after_step=s)
+                if s in (3, 8) and r == job['rounds'][0]:
+                    validate_translation(res, mode, st, ky, out, dict(at_des=d, at_round=r, after_step=s), expanded)
                 vals = [D.DesRef.stop_value(tr[d], r, s, d == npass - 1, d == 0) for tr in traces]
                 pos = vals[0][1]
                 exp = sum((v[0] for v in vals), [])
